@@ -19,7 +19,7 @@ void _ZdlPv(u8 *p) { if (p) free(p); }
 void _ZdaPv(u8 *p) { if (p) free(p); }
 void _ZdlPvm(u8 *p, u64 n) { (void)n; if (p) free(p); }
 
-#ifndef VERIF_FOOTPRINT
+#ifndef VERIF_FOOTPRINT   /* with --footprint the generated unit defines them */
 void __fp_store(void *p) { (void)p; }
 void __fp_load(void *p) { (void)p; }
 #endif
